@@ -511,6 +511,9 @@ def generate_richardson_integrator(basis_integrator, richardson_iter=2):
             dtstep = timestep / num_intervals
             self.__interpolants = []
             self.__interpolant_times = []
+            # the wrapped integrator reuses the end slope of its previous call as the start slope of the next one: that holds from one sub-step to the
+            # next, not across steps (the previous step ended at the un-extrapolated state, or was rejected and is being redone from its start)
+            self.basis_integrators[int_num].final_rhs = None
             for interval in range(num_intervals):
                 dt, (dt_z, dy_z) = self.basis_integrators[int_num](rhs, initial_time + dt_now,
                                                                    initial_state + dstate_now,
